@@ -284,6 +284,9 @@ func checkSequential(obs *Obs) []Finding {
 		}
 	}
 	model := map[string][]string{}
+	// the same model with every reset ignored: a discrepancy is the reset API's
+	// (C08) only when it is what one sees if a reset did not (lastingly) clear
+	noReset := map[string][]string{}
 	resetSeen := false
 	cmp := func(where string, method string, got []string) {
 		want := model[method]
@@ -292,7 +295,8 @@ func checkSequential(obs *Obs) []Finding {
 		}
 		d := fmt.Sprintf("%s: %sCalls() = %s, model = %s", where, method, descTuples(obs, got), descTuples(obs, want))
 		add("C04", "records-differ-from-model", "%s", d)
-		if resetSeen {
+		if resetSeen && len(got) > len(want) && len(got) <= len(noReset[method]) && equalStrings(got[len(got)-len(want):], want) {
+			// records from before a reset are (still or again) there
 			add("C08", "records-differ-after-reset", "%s", d)
 		}
 	}
@@ -301,6 +305,7 @@ func checkSequential(obs *Obs) []Finding {
 		case OpCall:
 			if recorded(r, c.Flags.Stub) {
 				model[r.Op.Method] = append(model[r.Op.Method][:len(model[r.Op.Method]):len(model[r.Op.Method])], r.Tuple)
+				noReset[r.Op.Method] = append(noReset[r.Op.Method][:len(noReset[r.Op.Method]):len(noReset[r.Op.Method])], r.Tuple)
 			}
 		case OpCalls:
 			if r.Done {
